@@ -218,6 +218,31 @@ def run(tier, replay=None):
     for f in _enrich(events, vlib.bad_to_failures(r, events)):
         c.add_failure(f)
     compared = _fidelity(c, events, preds)
+    # non-vacuity: how often each clause had something to decide
+    ne = {"hdr": 0, "up": 0, "poll": 0, "end": 0, "crash": 0}
+    ev_n = {"accepted_media_uploads": 0, "publications_judged_by_listed": 0, "listed_numbers": 0,
+            "bounded_files_judged": 0, "hook_observations": 0, "observations_with_mpd": 0}
+    started_prev = False
+    for e in events:
+        ne[e["ev"]] = ne.get(e["ev"], 0) + 1
+        if e["ev"] == "hdr":
+            started_prev = False
+        if e["ev"] != "up":
+            continue
+        acc = e["kind"] == "media" and e["status"] == 200
+        ev_n["accepted_media_uploads"] += acc
+        ev_n["bounded_files_judged"] += bool(acc and started_prev)
+        ev_n["hook_observations"] += bool(e["hook"]["have"])
+        ev_n["observations_with_mpd"] += e["mpd"]["state"] != "absent"
+        if e["mpd"]["state"] == "new" and e["mpd"]["ok"]:
+            ev_n["publications_judged_by_listed"] += 1
+            ev_n["listed_numbers"] += sum(sum(x["r"] + 1 for x in a["S"]) * len(a["reps"]) for a in e["mpd"]["as"])
+        if e["hook"]["have"]:
+            started_prev = e["hook"]["maxBuf"] > 0
+    c.extra["clause_evaluations"] = ev_n
+    c.extra["trace_events"] = ne
+    if min(ne["hdr"], ne["up"], ne["poll"], ne["end"]) == 0 or min(ev_n.values()) == 0:
+        raise MachineryError(f"vacuous trace: {ne} {ev_n}")
     # vacuity
     if st["scenarios"] < len(gen) or st["publications"] == 0 or st["poll_reads"] == 0 or st["histories_started"] == 0:
         raise MachineryError(f"vacuous run: {json.dumps({k: v for k, v in st.items() if not k.startswith('_')})[:1500]}")
